@@ -235,9 +235,14 @@ def unit_prefs(k):
 
 
 def make_config(rng):
-    k = rng.randrange(7)
+    k = rng.randrange(8)
     if k == 0:
         return {}
+    if k == 7:
+        # every decoder of this configuration appends to one dump file (victim, references, the replayed copy ...)
+        import os
+        from .. import runner
+        return {"dump_to_file": os.path.join(runner.SCRATCH, f"c16-dump-{os.getpid()}", "shared.jsonl"), "dump_pgns": rng.choice([[], [127250, "isoAddressClaim"]])}
     if k == 5:
         return {"preferred_units": unit_prefs(rng.randrange(3))}
     if k == 6:
@@ -465,6 +470,16 @@ def run_shard(spec, acc):
         return run_many_streams(spec, acc)
     if spec.get("threads"):
         return run_threads(spec, acc)
+    import os
+    import shutil
+    from .. import runner
+    try:
+        return run_histories(spec, acc)
+    finally:
+        shutil.rmtree(os.path.join(runner.SCRATCH, f"c16-dump-{os.getpid()}"), ignore_errors=True)
+
+
+def run_histories(spec, acc):
     dbx = refdb.db()
     rng = gen.rng_for(spec["seed"], ID, spec["name"])
     quick = spec["tier"] == "quick"
